@@ -168,6 +168,21 @@ impl Sandbox {
                 assert!(prev.is_none(), "marker contents must be unique");
             }
         }
+        // next to every directory, files named after it (`pub/sub.ttl` beside `pub/sub/`): a loader
+        // that derives alternative file names from the *directory* path (e.g. with_extension on an
+        // empty remainder) reads them, although they lie outside the directory mapped to the namespace
+        for d in DIRS {
+            if d.is_empty() {
+                continue;
+            }
+            for ext in ["ttl", "nt", "jsonld", "rdf"] {
+                let rel = format!("{d}.{ext}");
+                let c = file_content(&rel);
+                std::fs::write(base.join(&rel), &c).expect("sandbox sibling file");
+                let prev = by_content.insert(c, rel);
+                assert!(prev.is_none(), "marker contents must be unique");
+            }
+        }
         Sandbox { base, by_content }
     }
     fn get() -> Arc<Sandbox> {
